@@ -17,8 +17,11 @@ func harnessC05Panics() {
 	c01Log, c01Re = nil, nil
 	var panics []c05Panic
 	withPH := vBool()
+	// one of four configurations (not their cross product): 0 plain, 1 with an observability
+	// layer, 2 events handed over as interface values, 3 panic handler installed by the setter
+	variant := vPick(4)
 	var bopts []Option
-	if vBool() {
+	if variant == 1 {
 		bopts = append(bopts, WithObservability(&c20Obs{})) // recovery must not depend on the observability layer
 	}
 	var bus *EventBus
@@ -27,7 +30,7 @@ func harnessC05Panics() {
 		panics = append(panics, c05Panic{ev, ht, val})
 		c01Mu.Unlock()
 	}
-	viaSetter := withPH && vBool() // installed with SetPanicHandler after construction instead of the option
+	viaSetter := withPH && variant == 3 // installed with SetPanicHandler after construction instead of the option
 	if withPH && !viaSetter {
 		bopts = append(bopts, WithPanicHandler(ph))
 	}
@@ -77,7 +80,7 @@ func harnessC05Panics() {
 		}
 	}
 	anyPanic := false
-	viaAny := vBool() // the events are handed to Publish as interface values
+	viaAny := variant == 2 // the events are handed to Publish as interface values
 	for p := 0; p < 2; p++ {
 		c01TakeLog()
 		panics = nil
